@@ -143,7 +143,7 @@ func decodeStream(data []byte, chunks []int, bufSize int) (early []resp.Value, l
 func c10(r *ev.Run) {
 	rnd := rand.New(rand.NewSource(r.Seed))
 	thorough := r.Tier == "thorough"
-	r.Rule("RESP values drawn from a PRNG generator biased to boundary integers / bulk lengths around 512, 4096, 8192 / null vs empty / nesting <= 6; streams of 1-50 messages delivered through a scripted reader with chunkings {whole, 1-byte, every 2-way split (exhaustive for streams <= 96 bytes), PRNG chunks, chunk ending between CR and LF} x reader buffer sizes {32,33,64,127,4096,8192}; distinct = distinct (value shape, chunking class, buffer size) tuples and distinct integer-string classes")
+	r.Rule("RESP values drawn from a PRNG generator biased to boundary integers / bulk lengths around 512, 4096, 8192 / null vs empty / nesting <= 6; streams of 1-50 messages (some followed by a 1000-2500 element array, by 33-92 null / empty arrays, by 300-700 further messages, or by lines of up to 40000 bytes) delivered through a scripted reader with chunkings {whole, 1-byte, every 2-way split (exhaustive for streams <= 96 bytes), PRNG chunks, chunk ending between CR and LF} x reader buffer sizes {32,33,64,127,4096,8192}; distinct = distinct (value shape, chunking class, buffer size) tuples and distinct integer-string classes")
 	r.Assume("oracle: the harness's own RESP codec (internal/resp) and strconv")
 
 	// (1)(2) single-value round trips
@@ -257,6 +257,57 @@ func c10(r *ev.Run) {
 			data = resp.Append(data, tailMsg)
 			nm += 2
 			r.Count("streams_with_long_array", 1)
+		}
+		if si%40 == 11 {
+			// many null arrays (top level and nested) on one decoder, then ordinary messages: state kept per decoder must not
+			// accumulate over messages
+			n := 33 + rnd.Intn(60)
+			for i := 0; i < n; i++ {
+				var m resp.Value
+				switch rnd.Intn(3) {
+				case 0:
+					m = resp.NullArray()
+				case 1:
+					m = resp.A(resp.NullArray(), resp.NullBulk(), resp.A(resp.NullArray()))
+				default:
+					m = resp.A()
+				}
+				msgs = append(msgs, m)
+				data = resp.Append(data, m)
+			}
+			tailMsg := resp.A(resp.BS("GET"), resp.BS("after-the-null-arrays"))
+			msgs = append(msgs, tailMsg)
+			data = resp.Append(data, tailMsg)
+			nm += n + 1
+			r.Count("streams_with_many_null_arrays", 1)
+		}
+		if si%40 == 13 {
+			// a long run of small messages on one decoder
+			n := 300 + rnd.Intn(400)
+			for i := 0; i < n; i++ {
+				m := genValue(rnd, 4, false)
+				msgs = append(msgs, m)
+				data = resp.Append(data, m)
+			}
+			nm += n
+			r.Count("streams_with_hundreds_of_messages", 1)
+		}
+		if si%40 == 17 {
+			// lines (simple strings, errors) longer than one, two and several reader buffers
+			for _, l := range []int{65, 129, 255, 4097, 8193, 16385, 16500, 40000} {
+				line := genText(rnd, l, true)
+				var m resp.Value
+				if rnd.Intn(2) == 0 {
+					m = resp.S(string(line))
+				} else {
+					m = resp.E(string(line))
+				}
+				msgs = append(msgs, m, resp.I(int64(l)))
+				data = resp.Append(data, m)
+				data = resp.Append(data, resp.I(int64(l)))
+				nm += 2
+			}
+			r.Count("streams_with_long_lines", 1)
 		}
 		r.Checkpoint(map[string]interface{}{"phase": "stream", "stream_hex": trunc(data), "len": len(data)})
 		type chunking struct {
@@ -442,6 +493,9 @@ func c10(r *ev.Run) {
 	r.Count("itoa_inputs", int64(ci))
 	r.Require("streams_with_exhaustive_2way_split", 10)
 	r.Require("streams_with_long_array", 3)
+	r.Require("streams_with_many_null_arrays", 3)
+	r.Require("streams_with_hundreds_of_messages", 3)
+	r.Require("streams_with_long_lines", 3)
 }
 
 func trunc(b []byte) string {
